@@ -5,13 +5,6 @@ From Coq Require Import ZifyBool.
 Open Scope Z_scope.
 Open Scope list_scope.
 
-Lemma wf_items_no_comment il inn infix items : wf_items il inn infix items -> drop_comments (map fst items) = map fst items.
-Proof.
-  induction items as [|[t sep] rest IH]; intros H; [reflexivity|]. cbn [wf_items] in H. destruct H as (Ht & _ & Hr).
-  cbn [map fst]. unfold drop_comments in *. cbn [filter]. destruct t; cbn [is_comment negb]; try (rewrite (IH Hr); reflexivity).
-  destruct Ht.
-Qed.
-
 Ltac ne := repeat (let H := fresh in intros H; apply app_eq_nil in H; destruct H as [_ H]; revert H); first [discriminate | assumption].
 
 (* ---------- parser.check on printed trees (prefix) ---------- *)
@@ -110,12 +103,12 @@ Section PreSrc.
   Qed.
 
   Theorem prefix_source items t :
-    wf_items is_letter_tab is_number_tab false items -> map fst items = ttoks t -> twf t -> is_leaf t = false ->
+    wf_items is_letter_tab is_number_tab false items -> drop_comments (map fst items) = ttoks t -> twf t -> is_leaf t = false ->
     parse_source c false (render items) = Some (strip t).
   Proof.
     intros Hi E Hw Hl. unfold parse_source, lex_tab, lex.
     rewrite (lex_render is_letter_tab is_number_tab false items _ [] Hi (Forall_nil _)) by (cbn [app]; lia).
-    rewrite (wf_items_no_comment _ _ _ _ Hi), E. rewrite (check_top t Hw Hl).
+    rewrite E. rewrite (check_top t Hw Hl).
     apply parse_prefix_correct; assumption.
   Qed.
 End PreSrc.
@@ -174,12 +167,12 @@ Section InSrc.
   Qed.
 
   Theorem infix_source items e :
-    wf_items is_letter_tab is_number_tab true items -> map fst items = itoks e -> iwf c e -> ichk e ->
+    wf_items is_letter_tab is_number_tab true items -> drop_comments (map fst items) = itoks e -> iwf c e -> ichk e ->
     parse_source c true (render items) = Some (itree c e).
   Proof.
     intros Hi E Hw Hk. unfold parse_source, lex_tab, lex.
     rewrite (lex_render is_letter_tab is_number_tab true items _ [] Hi (Forall_nil _)) by (cbn [app]; lia).
-    rewrite (wf_items_no_comment _ _ _ _ Hi), E.
+    rewrite E.
     assert (Hchk : check_tokens true (itoks e) = true).
     { unfold check_tokens. destruct (itoks e) eqn:Et.
       - exfalso. pose proof (parse_infix_correct c e Hw) as P. rewrite Et in P. discriminate.
